@@ -21,7 +21,7 @@ Definition drop_session (k : N) (l : list N) : list N := filter (fun j => negb (
 Definition sstep (m : nat) (s : sstate) (o : sop) : sstate :=
   if negb (up s) then s else
   match o with
-  | Connect =>
+  | Connect | ConnectSilent =>     (* a connection counts from the moment it is accepted, whatever the peer does next *)
       let kept := if (capacity m <=? length (served s))%nat then tl (served s) else served s in
       {| served := kept ++ [accepted s]; accepted := accepted s + 1; up := true; value := value s |}
   | ClientClose k | Garbage k =>
